@@ -1203,16 +1203,23 @@ fn scenario_wsserver(sc: &str) -> Result<Violations, String> {
     };
     let alive = |v: &mut Violations| {
         // the service still answers a new client (one event loop serves every WebSocket client)
-        let r = ws_session(addr, vec![ws::Message::text("use-db wd wtok;get alive")], 150);
-        let ok = r.map_or(false, |msgs| msgs.iter().any(|m| m.contains("value yes")));
+        // (waits grow up to several seconds before the service is declared dead: a loaded machine must not look like a crash)
+        let mut ok = false;
+        for wait in [150u64, 400, 1000, 2500, 6000] {
+            let r = ws_session(addr, vec![ws::Message::text("use-db wd wtok;get alive")], wait);
+            if r.map_or(false, |msgs| msgs.iter().any(|m| m.contains("value yes"))) { ok = true; break; }
+        }
         chk(v, "C10.safety", ok); chk(v, "C10.ws-service-survives", ok);
     };
     match sc {
         "text" => {
             // several commands in one frame: executed once each, in order - the refused one does not shift the others
-            let r = ws_session(addr, vec![ws::Message::text("use-db wd wtok;get k;get nosuchkey;set-safe k -5 x;get k")], 200).ok_or("connect failed")?;
-            let joined = r.join("");
-            let values = joined.matches("value ").count();
+            let mut joined = String::new(); let mut values = 0;
+            for wait in [200u64, 600, 2000, 6000] {
+                let r = ws_session(addr, vec![ws::Message::text("use-db wd wtok;get k;get nosuchkey;set-safe k -5 x;get k")], wait).ok_or("connect failed")?;
+                joined = r.join(""); values = joined.matches("value ").count();
+                if values >= 3 { break; }
+            }
             chk(&mut v, "C20.ws-each-command-once-in-order", values == 3 && joined.find("value 1").is_some() && joined.find("value <Empty>").map_or(false, |e| e > joined.find("value 1").unwrap()));
             alive(&mut v);
         }
@@ -1225,7 +1232,7 @@ fn scenario_wsserver(sc: &str) -> Result<Violations, String> {
             let before = counters(dbs);
             let _ = ws_session(addr, vec![ws::Message::text("use-db wd wtok;watch k")], 150);
             let mut released = false;
-            for _ in 0..400 { if counters(dbs) == before { released = true; break; } std::thread::sleep(std::time::Duration::from_millis(5)); }
+            for _ in 0..3000 { if counters(dbs) == before { released = true; break; } std::thread::sleep(std::time::Duration::from_millis(5)); }
             for l in ["C17.disconnect-releases-session", "C17.count-is-open-sessions", "C03.disconnect-unsubscribes"] { chk(&mut v, l, released); }
         }
         _ => return Err("bad wsserver scenario".into()),
@@ -1311,13 +1318,13 @@ fn scenario_tcpserver(sc: &str) -> Result<Violations, String> {
         s.write_all(b"use-db td ttok\nwatch k\n").map_err(|e| e.to_string())?;
         // the session is counted and subscribed while it is open
         let mut seen = false;
-        for _ in 0..200 { let c = counters(dbs); if c.0 >= before.0 + 1 && c.1 >= before.1 + 1 { seen = true; break; } std::thread::sleep(std::time::Duration::from_millis(5)); }
+        for _ in 0..2000 { let c = counters(dbs); if c.0 >= before.0 + 1 && c.1 >= before.1 + 1 { seen = true; break; } std::thread::sleep(std::time::Duration::from_millis(5)); }
         chk(&mut v, "C17.use-db-increments", seen);
         if p[0] == "fin" { let mut buf = [0u8; 256]; let _ = s.read(&mut buf); let _ = s.shutdown(std::net::Shutdown::Both); }
         drop(s);   // rst: the greeting and the replies are unread, the kernel answers the close with a reset
         // ... and released once the client is gone, however it went
         let mut released = false;
-        for _ in 0..400 { if counters(dbs) == before { released = true; break; } std::thread::sleep(std::time::Duration::from_millis(5)); }
+        for _ in 0..3000 { if counters(dbs) == before { released = true; break; } std::thread::sleep(std::time::Duration::from_millis(5)); }
         for l in ["C17.disconnect-releases-session", "C17.count-is-open-sessions", "C17.left-decrements"] { chk(&mut v, l, released && counters(dbs).0 == before.0); }
         for l in ["C03.disconnect-unsubscribes", "C03.unwatch-all-only-mine"] { chk(&mut v, l, released && counters(dbs).1 == before.1); }
         if !released { break; }
